@@ -325,11 +325,21 @@ func TestReplay(t *testing.T) {
 	if v.Meta["callback"] != "" {
 		cbs = []bool{v.Meta["callback"] == "true"}
 	}
+	q := newQuietScope()
+	if q != nil {
+		defer q.clean()
+	}
 	for _, ver := range vs {
 		for _, cb := range cbs {
 			if c, m := checkOne(src, ver, cb); c != "" {
 				report(t, c, m, src, ver, cb)
 				return
+			}
+			if q != nil {
+				if _, out := q.parse(append([]byte{}, src...), ver, cb); len(out) > 0 {
+					report(t, "quiet/writes-to-stdio", fmt.Sprintf("parser.Parse (version %s, callback=%v) wrote to standard output / standard error / the default logger: %q", ver, cb, trunc(out, 300)), src, ver, cb)
+					return
+				}
 			}
 		}
 	}
